@@ -10,7 +10,7 @@ from ..astutil import (
 )
 from ..report import Registry, chain, sub
 from ._helpers_rob_b1 import (
-    bind_args, bindings, dominating_guards, expanded_atoms, inline_predicate, resolve_alias, resolve_callee, substitute,
+    bind_args, bindings, cfg_following_raisers, dominating_guards, expanded_atoms, inline_predicate, resolve_alias, resolve_callee, substitute,
 )
 from ._helpers_rules_b import (
     ORD, PARAM, SET, TAINTED, UNKNOWN, Kind, OrderFlow, arg_for, call_sites, ordinal_keys, topo_flow,
@@ -262,7 +262,7 @@ def _cde_ctor(ctx, f, node):
              "CircularDependencyError carrying find_cycles(pairs, items)")
 def r2(ctx):
     f, tuples_p, items_p, build, first, second, (E, idx, val) = _emission(ctx)
-    g = ctx.cfg(f)
+    g = cfg_following_raisers(ctx, f)   # an extracted `_raise_cycle(..)` helper ends the path like the raise did
     pm = f.module.parents()
     base = f.key
     binds = bindings(f.node)
